@@ -299,6 +299,7 @@ func main() {
 		json.Unmarshal(pj, &s)
 		return runSingle(r.Seed, s)
 	})
+	r.RegisterArch386()
 	if r.IsReplay() {
 		r.DoReplay()
 	}
@@ -501,6 +502,9 @@ func main() {
 		"ed25519.Verify with a public key that is not 32 bytes panics by contract (as in the standard library) and is not a target")
 	r.Sample(map[string]any{"target": "type5.Request.Unmarshal+Evaluate", "generator": "field", "input_hex": "000500c0000000ffffffff"})
 	r.Sample(map[string]any{"target": "batched.UnmarshalBatchedTokenResponses", "generator": "strings", "input_hex": "4000"})
+	if r.Thorough() {
+		r.RunArch386Tier("quick") // the quick sweep again as a 32-bit program (about ten times slower there)
+	}
 	r.Finish()
 }
 
